@@ -37,7 +37,8 @@ META = dict(
 MODULE = "OPM.Properties.C17"
 REQUIRED = ["OPM.C17.one_node_per_line", "OPM.C17.text_one_node_per_line", "OPM.C17.structure_law",
             "OPM.C17.parent_is_nearest_shallower", "OPM.C17.bad_indentation_flagged",
-            "OPM.C17.text_bad_indentation_flagged", "OPM.C17.flagged_iff_incorrect", "OPM.C17.opener_names"]
+            "OPM.C17.text_bad_indentation_flagged", "OPM.C17.flagged_iff_incorrect", "OPM.C17.opener_names",
+            "OPM.C17.lines_have_no_boundary"]
 DRIVER = "Parse"
 
 
